@@ -188,6 +188,11 @@ def walk_invariants(src):
             if not found and not bad:
                 bad.append(f"{x!r}: no enclosing function scope binds it (walk from {t.get_name()!r})")
         for c in t.get_children():
+            # namespaces are built for def and class scopes only (generate_nsp): lambdas and comprehensions are
+            # left to Python's own scoping, no owner walk starts in or below them
+            if isinstance(c, symtable.Function) and (c.get_name() == "lambda" or
+                    (c.get_name() in ("listcomp", "genexpr", "setcomp", "dictcomp") and ".0" in c.get_parameters())):
+                continue
             rec(c, stack + [t])
     rec(top, [])
     return n[0], bad
